@@ -8,17 +8,28 @@ extern "C" hid_t __real_H5Fopen(const char *name, unsigned flags, hid_t fapl);
 extern "C" hid_t __real_H5Fcreate(const char *name, unsigned flags, hid_t fcpl, hid_t fapl);
 
 namespace {
-int g_cache_mode = 0, g_sieve_mode = 0;
-uint64_t g_applied = 0;
+int g_cache_mode = 0, g_sieve_mode = 0, g_mdc_mode = 0;
+uint64_t g_applied = 0, g_mdc_applied = 0;
 
 // the knob is applied on top of whatever access list the library passes (a copy of it; H5P_DEFAULT today)
 hid_t make_fapl(hid_t given) {
-    if (g_cache_mode == 0 && g_sieve_mode == 0) return given;
+    if (g_cache_mode == 0 && g_sieve_mode == 0 && g_mdc_mode == 0) return given;
     hid_t fapl = given == H5P_DEFAULT ? H5Pcreate(H5P_FILE_ACCESS) : H5Pcopy(given);
     if (fapl < 0) return given;
     if (g_cache_mode == 1) H5Pset_cache(fapl, 0, 0, 0, 0.75);
     if (g_cache_mode == 2) H5Pset_cache(fapl, 0, 13, 64 * 1024, 0.75);
     if (g_sieve_mode == 1) H5Pset_sieve_buf_size(fapl, 0);
+    if (g_mdc_mode) {
+        // a metadata cache of fixed small size: object headers, link tables and heaps are evicted (written when dirty, re-read when needed)
+        // in the middle of a session, the way they are in a file that has outgrown the default 2 MiB cache
+        H5AC_cache_config_t c; c.version = H5AC__CURR_CACHE_CONFIG_VERSION;
+        if (H5Pget_mdc_config(fapl, &c) >= 0) {
+            size_t sz = g_mdc_mode == 1 ? 128 * 1024 : 32 * 1024;
+            c.set_initial_size = 1; c.initial_size = sz; c.min_size = sz; c.max_size = sz;
+            c.incr_mode = H5C_incr__off; c.flash_incr_mode = H5C_flash_incr__off; c.decr_mode = H5C_decr__off;
+            if (H5Pset_mdc_config(fapl, &c) >= 0) g_mdc_applied++;
+        }
+    }
     g_applied++;
     return fapl;
 }
@@ -65,6 +76,8 @@ void h5knob_tbuf(int mode) { g_tbuf_mode = mode; }
 uint64_t h5knob_tbuf_applied() { return g_tbuf_applied; }
 void h5knob_set(int c, int s) { g_cache_mode = c; g_sieve_mode = s; }
 uint64_t h5knob_applied() { return g_applied; }
+void h5knob_mdc(int m) { g_mdc_mode = m; }
+uint64_t h5knob_mdc_applied() { return g_mdc_applied; }
 void h5_quiet() { if (!getenv("NIXSIM_H5DIAG")) H5Eset_auto2(H5E_DEFAULT, NULL, NULL); }
 void h5_warm() {
     H5open();
